@@ -59,8 +59,18 @@ class Prop(BaseProp):
             if home_has_cfg:
                 os.makedirs(os.path.join(home, ".config", "cminx"))
             tree = gen_tree(rng, max_depth=rng.choice([0, 1, 3]), rich=True, case_twins=rng.random() < 0.3)
+            linked = rng.random() < 0.3
+            if linked:
+                tree.files["linked_in.cmake"] = cmake_text("linked_in.cmake", rich=True)
             tree.write(inp)
-            res.sig = sig_hash(self._sig0 + [tree.shape()])
+            res.sig = sig_hash(self._sig0 + [tree.shape(), linked])
+            if linked:
+                # the entry is a symbolic link to a regular file outside the input tree
+                os.makedirs(os.path.join(sb, "link_targets"))
+                tgt = os.path.join(sb, "link_targets", "real_file.cmake")
+                os.replace(os.path.join(inp, "linked_in.cmake"), tgt)
+                os.symlink(tgt, os.path.join(inp, "linked_in.cmake"))
+                res.count("runs_with_symlinked_file")
             os.makedirs(os.path.join(sb, "elsewhere"))
             with open(os.path.join(sb, "elsewhere", "bystander.txt"), "w") as f:
                 f.write("x")
